@@ -85,7 +85,7 @@ FIXTURE_XPRV = ('xprv9s21ZrQH143K42ovpZygnjfHdAqSd9jo7zceDfPRogM7bkkoNVv7DRNLEoB
 
 
 def plan(tier):
-    return {'shards': 16, 'budget_s': 40 if tier == 'quick' else 700}
+    return {'shards': 16, 'budget_s': 36 if tier == 'quick' else 700}
 
 
 def idx_class(i):
